@@ -13,6 +13,7 @@ from vf.b09 import parse
 from vf.core import Stats, Violation
 
 ID = "C20"
+ALL_EXHAUSTIVE = True  # the whole plan enumerates finite domains (the STRING$ counts completely only in the thorough tier)
 RULE = (
     "exhaustive enumeration: INSTR - subject over {A,B} of length 0..5, pattern of length 1..3, start 1..6 (7 812 cases); STRING$ - counts "
     "0..255 x 14 strings of length 1..3 (a stride of counts in the quick tier); read filter - the empty item and the Python str(float) "
@@ -77,6 +78,25 @@ def check_case(case):
         want = s[0] * n
         if r != ("value", want):
             raise Violation("ecb_string(%d, %r) gives %s, Color BASIC STRING$ gives %r" % (n, s, show(r), want), case)
+    elif f == "filter_via_tool":
+        from vf.b09 import parse as bp
+        from fractions import Fraction as _F
+
+        (lit,) = case["args"]
+        status, out = tool.try_convert("10 READ A,B\n20 DATA %s," % lit, add_standard_prefix=False, add_suffix=False)
+        if status != "ok":
+            return None
+        text = None
+        for ln in bp.parse_program(out):
+            for st_ in ln.stmts:
+                if st_.kind == "data" and st_.items and st_.items[0][0] == "str":
+                    text = st_.items[0][1]
+        if text is None:
+            raise Violation("no string DATA item emitted for numeric item %s in a program with an empty DATA item" % lit, case)
+        r = call("ecb_read_filter", [text], False)
+        want = sem.val_of(lit)
+        if r[0] != "value" or isinstance(r[1], str) or not sem.close(r[1], want, rel=1e-9):
+            raise Violation("DATA item %s is emitted as %r, which the read filter turns into %s (Color BASIC reads %s)" % (lit, text, show(r), float(want)), case)
     elif f == "filter":
         (s,) = case["args"]
         r = call("ecb_read_filter", [s], False)
@@ -160,8 +180,39 @@ def enum_filter(switches=frozenset()):
     return stats
 
 
+SOURCE_NUMERALS = ["0", "1", "-1", "0.5", "2.25", "255", "65535", "1234.5678", "1E16", "1E-5", "-1E-5", "1.5E20", "100000", "1234567", "3.141593", "16777216",
+                   "999999999", "1.234567E10", "12345678", "0.000123456789", "7654321.5", "1E22", ".001", "99.99", "123456789"]
+
+
+def enum_filter_via_tool(switches=frozenset()):
+    """The numeral text handed to the filter is the one the tool's own DATA path writes for a source literal
+    (a program with an empty DATA item makes the tool turn numeric items into strings)."""
+    from vf.b09 import parse as bp
+
+    stats = Stats()
+    for lit in SOURCE_NUMERALS:
+        src = "10 READ A,B\n20 DATA %s," % lit
+        status, out = tool.try_convert(src, add_standard_prefix=False, add_suffix=False)
+        case = {"fn": "filter_via_tool", "args": [lit]}
+        if status != "ok":
+            stats.case(key=case, nontrivial=False, classes=["filter_via_tool_not_converted"], sample=case)
+            continue
+        text = None
+        for ln in bp.parse_program(out):
+            for st_ in ln.stmts:
+                if st_.kind == "data" and st_.items and st_.items[0][0] == "str":
+                    text = st_.items[0][1]
+        stats.case(key=case, nontrivial=True, classes=["filter_via_tool"], sample={"source_literal": lit, "emitted_item": text})
+        try:
+            check_case(case)
+        except Violation as v:
+            stats.fail(v.detail, v.case)
+            return stats
+    return stats
+
+
 def plan(tier, seed, switches):
     counts = list(range(256)) if tier == "thorough" else sorted(set(list(range(0, 256, 7)) + [0, 1, 2, 31, 32, 33, 127, 128, 254, 255]))
     return [("enum_instr", [dict(part=k, nparts=8) for k in range(8)]),
             ("enum_string", [dict(counts=counts[i::4]) for i in range(4)]),
-            ("enum_filter", [dict()])]
+            ("enum_filter", [dict()]), ("enum_filter_via_tool", [dict()])]
